@@ -53,6 +53,17 @@ def run(ck: Checker):
     server.check_retest(ck, 'C16-4', s)
     server.check_slot_return(ck, 'C16-4', s)
     server.check_race_free_resolution(ck, 'C16-4', s)
+    ck.rule('C16-8', 'AsyncServer admits, rejects and times out like the sync server: atomic admission, a rejected request leaves no trace, single writer of the ledger, bounded wait, reject at once under backpressure, the wait of every pass of the re-check loop recomputed from the clock, one deadline per request, the timeout passed through as given (the C06-2/-3/-5/-6/-7/-8/-9/-12 obligations of AsyncServer)', minimum=7)
+    server.check_atomic_admission(ck, 'C16-8', s)
+    server.check_reject_traceless(ck, 'C16-8', s)
+    server.check_single_writer(ck, 'C16-8', s)
+    server.check_bounded_wait(ck, 'C16-8', s)
+    server.check_reject_at_once(ck, 'C16-8', s)
+    server.check_remaining_time(ck, 'C16-8', s)
+    server.check_single_deadline(ck, 'C16-8', s)
+    from .common import check_timeout_passthrough
+
+    check_timeout_passthrough(ck, 'C16-8', [m for m in s.cls.methods() if m.name in ('call', '_enqueue', 'stream', '_wait_for_result')])
 
 
 # ======================================================================================
